@@ -694,7 +694,7 @@ def resign(raw, rng, k):
 # ------------------------------------------------------------------ scaling shapes (large inputs)
 def scaling_case(shape, nbytes, fault):
     """a valid input of about `nbytes` bytes of the given shape; fault=True spoils its very end (so that a decoder that
-    retries / re-scans on failure does all its extra work)."""
+    retries / re-scans on failure does all its extra work); fault='all' (shapes with strings) spoils every element."""
     if shape == 'header-fields':
         k = max(nbytes // 8, 1)
         e = Enc(True)
@@ -710,11 +710,13 @@ def scaling_case(shape, nbytes, fault):
     elem = {'ay': b'\x07', 'as': struct.pack('<I', 3) + b'abc\0', 'a(yv)': b'\x05\x01y\0\x09\0\0\0',
             'a{sv}': struct.pack('<I', 1) + b'k\0\x01i\0\0\0\0' + struct.pack('<I', 7), 'av': b'\x01y\0\x09',
             'a(y()()()())': b'\x01' + b'\0' * 7}[shape]
+    if fault == 'all':          # every string of every element is badly encoded
+        elem = elem.replace(b'abc', b'a\xffc').replace(b'k\0', b'\xff\0')
     k = max(nbytes // len(elem), 1)
     trailing = {'a(yv)': 3}.get(shape, 0)      # the last element carries no alignment padding
     body = (elem * k)[:len(elem) * k - trailing]
     alen = len(body)
-    if fault:
+    if fault is True:
         body = body[:-2] + (b'\xff\0' if shape == 'as' else b'')
     pad8 = b'\0' * 4 if shape[1] in '({' else b''
     data = struct.pack('<I', alen) + pad8 + body
@@ -973,7 +975,7 @@ class Runner:
         gc.disable()
         try:
             for shape in SCALING_SHAPES:
-                for fault in (False, True):
+                for fault in ((False, True, 'all') if shape in ('as', 'a{sv}') else (False, True)):
                     for n in sizes:
                         obs = []
                         for nb in (n, 4 * n):
@@ -987,7 +989,7 @@ class Runner:
                             gc.collect()
                         (c1, o1, t1), (c4, o4, t4) = obs
                         ctx.stat('scaling %s%s n=%d: steps x%.2f work x%.2f' % (
-                            shape, '+fault' if fault else '', n, o4['steps'] / max(o1['steps'], 1), o4['work'] / max(o1['work'], 1)))
+                            shape, '+fault' if fault is True else '+allbad' if fault else '', n, o4['steps'] / max(o1['steps'], 1), o4['work'] / max(o1['work'], 1)))
                         if any(o['status'] in ('ALARM', 'BUDGET', 'MEMORY') for o in (o1, o4)):
                             continue        # already reported by judge
                         inp = {'scaling': shape, 'fault': fault, 'n': n}
